@@ -3,6 +3,7 @@ package harness
 import (
 	"bytes"
 	"fmt"
+	"github.com/jech/storrent/known"
 	"net"
 	"net/http"
 	"net/http/httptest"
@@ -38,7 +39,7 @@ func marker(n int, newline bool) string {
 	return s
 }
 
-var markerSources = map[int]string{1: "torrent name", 2: "tracker URL", 3: "web-seed URL", 4: "tracker failure reason", 5: "peer version string", 6: "file path", 7: "name of a torrent added by URL", 8: "directory name"}
+var markerSources = map[int]string{1: "torrent name", 2: "tracker URL", 3: "web-seed URL", 4: "tracker failure reason", 5: "peer version string", 6: "file path", 7: "name of a torrent added by URL", 8: "directory name", 9: "peer id (client name taken from an Azureus-style id when the peer sends no version)", 10: "display name of a magnet link whose metadata is not known yet"}
 
 // findInjection tokenises an HTML page and reports where a marker got out
 // of the text it belongs to.
@@ -161,9 +162,24 @@ func webuiMain(rc *RunCtx) {
 	}
 	p := w.NewPeer(spec, pc)
 	p.Connect()
+	// a peer that sends no version at all: the UI falls back on the client
+	// code inside an Azureus-style peer id, "-XXXXXX-"
+	if st.Bool(1, 2) {
+		pc2 := drawSeedCfg(st, "peer-without-version", 7001)
+		pc2.Ext = st.Bool(1, 2)
+		pc2.ID = append([]byte("-<mk9a>-"), drawBytes(st, 12)...)
+		p2 := w.NewPeer(spec, pc2)
+		if st.Bool(1, 2) {
+			p2.Connect()
+		} else {
+			t.AddKnown(p2.Addr, pc2.ID, "", known.Tracker)
+		}
+		simrt.Probe("peer-id-with-markup")
+	}
 	// let the tracker be contacted (slow ticker) and the peer be known
 	simrt.Sleep(time.Duration(25+st.Choice(30)) * time.Second)
 	H := fmt.Sprintf("%x", spec.InfoHash)
+	var extraHashes []string
 	do := func(method, host, target string, form url.Values) *httptest.ResponseRecorder {
 		var body *strings.Reader
 		if form != nil {
@@ -186,6 +202,18 @@ func webuiMain(rc *RunCtx) {
 			rc.Tracef("adding by URL returned %d: %s", rec.Code, rec.Body.String())
 		}
 	}
+	// a magnet link with a display name, added through the UI; nobody
+	// serves its metadata, so it stays "incomplete"
+	if st.Bool(1, 2) {
+		mh := drawBytes(st, 20)
+		rec := do("POST", "localhost:8088", "/?q=add", url.Values{"url": {fmt.Sprintf("magnet:?xt=urn:btih:%x&dn=%s", mh, url.QueryEscape(marker(10, false)))}})
+		if rec.Code != http.StatusSeeOther {
+			rc.Tracef("adding a magnet returned %d: %s", rec.Code, rec.Body.String())
+		} else {
+			simrt.Probe("magnet-with-display-name-added")
+			extraHashes = append(extraHashes, fmt.Sprintf("%x", mh))
+		}
+	}
 	rc.SetSample("setup", fmt.Sprintf("hostile fields: name=%v tracker-url=%v webseed-url=%v failure-reason=%v peer-version=%v file-paths=%v multi-file=%v", hostileName, hostileTrURL, hostileWsURL, hostileReason, hostileVersion, hostilePaths && multi, multi))
 
 	// ---- the routes
@@ -205,6 +233,9 @@ func webuiMain(rc *RunCtx) {
 	if spec.Files != nil {
 		d := url.PathEscape(spec.Files[0].Path[0])
 		targets = append(targets, "/"+H+"/"+d+"/", "/"+H+"/"+d+"/?playlist")
+	}
+	for _, h := range extraHashes {
+		targets = append(targets, "/"+h+"/", "/?q=peers&hash="+h, "/", "/"+h+".m3u")
 	}
 	hosts := []string{"localhost:8088", "127.0.0.1:8088", "[::1]:8088", "localhost", "evil.example:8088", "localhost.evil.example:8088", "evil.example", "", "bad host:x", "LOCALHOST:8088", "localhost.:8088", "192.168.1.1.evil.example:80"}
 	methods := []string{"GET", "HEAD", "POST", "PUT", "DELETE"}
